@@ -508,6 +508,85 @@ func run(r *harness.Run) {
 		}
 		return nil
 	}
+	// (N) names and key IDs as strings: the property quantifies over ALL signer names / key IDs, and "fails for every other
+	// name / key ID". Every string of <= 2 symbols over an alphabet of characters that some lookup mechanism might treat
+	// specially (path separators, wildcards, pipes, brackets, quotes, escapes, non-ASCII) signs and verifies as a name and as a
+	// key ID; under every OTHER string of the family (with the signer's own public key) verification must fail.
+	{
+		syms := []string{"a", ".", "*", "?", "|", "[", "{", "\\", "#", ":", "\"", "\u00e9", " ", "@", "%", "~", "0", "A"}
+		var fam []string
+		for _, x := range syms {
+			fam = append(fam, x)
+			for _, y := range syms {
+				fam = append(fam, x+y)
+			}
+		}
+		fam = append(fam, "a.org", "*.org", "a.or?", "a.*", "ed25519:1", "ed25519:*", "ed25519:?", "a.org|b.org", "[a.org]", "{a.org}", "a\\.org", "a.org.ed25519:1", "#", "a.#")
+		k := keys[0]
+		doc := []byte(`{"k":1,"signatures":{"z.org":{"ed25519:z":"AAAA"}},"unsigned":{"x":1}}`)
+		type nameCase struct {
+			AsKeyID bool
+			Signer  string
+			Other   string
+		}
+		checkName := func(c nameCase) error {
+			name, kid := c.Signer, k.KeyID
+			if c.AsKeyID {
+				name, kid = k.Server, c.Signer
+			}
+			signed, err := gmsl.SignJSON(name, gmsl.KeyID(kid), k.Priv, doc)
+			if err != nil {
+				return fmt.Errorf("SignJSON(%q, %q): %v", name, kid, err)
+			}
+			if c.Other == "" {
+				if err := gmsl.VerifyJSON(name, gmsl.KeyID(kid), k.Pub, signed); err != nil {
+					return fmt.Errorf("object signed as (%q, %q) does not verify under that name and key ID: %v", name, kid, err)
+				}
+				v := parse(signed)
+				want := base64.RawStdEncoding.EncodeToString(evgen.ObjectSignature(v, evgen.Key{Server: name, KeyID: kid, Priv: k.Priv, Pub: k.Pub}))
+				if got, _ := getSig(v, name, kid); got != want {
+					return fmt.Errorf("signature of (%q, %q) is stored as %q, reference %q", name, kid, got, want)
+				}
+				return nil
+			}
+			on, ok := c.Other, kid
+			if c.AsKeyID {
+				on, ok = name, c.Other
+			}
+			if gmsl.VerifyJSON(on, gmsl.KeyID(ok), k.Pub, signed) == nil {
+				return fmt.Errorf("object signed only as (%q, %q) also verifies as (%q, %q)", name, kid, on, ok)
+			}
+			return nil
+		}
+		r.OnReplay("name", func(raw json.RawMessage) error {
+			var c nameCase
+			_ = json.Unmarshal(raw, &c)
+			return checkName(c)
+		})
+		for _, asKey := range []bool{false, true} {
+			asKey := asKey
+			if r.Replaying() {
+				break
+			}
+			r.Parallel(len(fam), func(i int) {
+				for j := -1; j < len(fam); j++ {
+					c := nameCase{AsKeyID: asKey, Signer: fam[i]}
+					if j >= 0 {
+						if fam[j] == fam[i] {
+							continue
+						}
+						c.Other = fam[j]
+					}
+					r.Eval()
+					if err := checkName(c); err != nil {
+						r.Violation(fmt.Sprintf("name:%v:%s:%s", asKey, c.Signer, c.Other), err.Error(), "name", c)
+						return
+					}
+				}
+			})
+		}
+		r.Count("N_name_family", int64(len(fam)))
+	}
 	r.OnReplay("seq", func(raw json.RawMessage) error {
 		var in replayIn
 		if err := json.Unmarshal(raw, &in); err != nil {
